@@ -305,3 +305,27 @@ class Stopwatch:
 
     def s(self):
         return time.time() - self.t0
+
+
+def build_via_api(j):
+    """Build the circuit through cirbo's public constructors (so the users index, input list and
+    blocks are whatever the code maintains), then impose the requested storage order."""
+    from cirbo.core.circuit import Circuit, gate
+    import gen
+    c = Circuit()
+    byl = {g[0]: g for g in j['gates']}
+    for l in gen.topo_order(j):
+        _, t, ops = byl[l]
+        c.emplace_gate(l, getattr(gate, t), tuple(ops))
+    # storage order of the gate map as requested (dict order is observable by printer/codec/...)
+    c._gates = {g[0]: c._gates[g[0]] for g in j['gates']}
+    c.set_inputs(list(j['inputs']))
+    c.set_outputs(list(j['outputs']))
+    for b in j.get('blocks', []):
+        c.make_block(b[0], list(b[2]), list(b[3]), list(b[1]))
+    return c
+
+
+def realize(j):
+    """JSON of the circuit as the code itself builds it (fields read back after construction)."""
+    return circ_to_json(build_via_api(j))
